@@ -79,9 +79,9 @@ Fixpoint horner (acc : Z) (l : list Z) : option Z :=
 Definition uint_of_text (l : list Z) : option Z := match l with [] => None | _ => horner 0 l end.
 Definition int_of_text (l : list Z) : option Z :=
   match l with
-  | 45 :: r => option_map Z.opp (uint_of_text r)
-  | 43 :: r => uint_of_text r
-  | _ => uint_of_text l
+  | [] => None
+  | c :: r => if c =? 45 then option_map Z.opp (uint_of_text r)
+              else if c =? 43 then uint_of_text r else uint_of_text l
   end.
 Fixpoint split_first (c : Z) (l : list Z) : list Z * option (list Z) :=
   match l with
@@ -207,8 +207,22 @@ Fixpoint body_lines (f : format) (w : Z) (recs : list (list (list Z))) (comments
                end
   end.
 Definition lay (e : list Z) (ls : list (list Z)) : list Z := concat (map (fun l => l ++ e) ls).
-Definition spec_file (f : format) (w : Z) (crlf : bool) (header : list (list Z)) recs comments : list Z :=
-  lay (eol_of crlf) (header ++ body_lines f w recs comments).
+(* [final] = the file ends with a line break.  When it does not, the reader appends a bare LF (parser.py,
+   __add_newline_to_end), also to a CRLF file. *)
+Definition spec_file (f : format) (w : Z) (crlf final : bool) (header : list (list Z)) recs comments : list Z :=
+  let full := lay (eol_of crlf) (header ++ body_lines f w recs comments) in
+  if final || negb crlf then full else firstn (length full - 2) full ++ [10].
+
+(* ---- vocabulary of the theorems ---- *)
+(* a field text: no TAB, no line feed, no carriage return *)
+Definition clean (f : list Z) : Prop := forall c, In c f -> c <> 9 /\ c <> 10 /\ c <> 13.
+(* a decimal numeral with optional sign *)
+Definition all_digits (l : list Z) : bool := forallb is_digit l.
+Definition numeral (l : list Z) : bool :=
+  match l with
+  | [] => false
+  | c :: r => if (c =? 45) || (c =? 43) then negb (len r =? 0) && all_digits r else all_digits l
+  end.
 
 (* ================================================================== MODEL *)
 (* data[i] with Python's wrap-around for negative i *)
@@ -342,6 +356,10 @@ Definition oneline_table (n : Z) (marker : Z) (plus : bool) (chunk : list Z) : o
   | _, _ => None
   end.
 
+(* the texts a table denotes, row by row *)
+Definition table_fields (t : table) : list (list (list Z)) :=
+  map (fun se => map (fun p => slice (fst p) (snd p) (t_data t)) (combine (fst se) (snd se))) (combine (t_starts t) (t_ends t)).
+
 (* ---------- column extraction ---------- *)
 Definition col (rows : list (list Z)) (j : Z) : list Z := map (fun r => nthZ r j) rows.
 Definition bounds (t : table) (j : Z) : list (Z * Z) := combine (col (t_starts t) j) (col (t_ends t) j).
@@ -387,6 +405,10 @@ Definition parse_with_missing {A} (missing : A) (parser : list Z -> option A) (t
 Definition parse_with_missing_fixed {A} (missing : A) (parser : list Z -> option A) (txts : list (list Z)) : option (list A) :=
   mapM (fun t => if (len t =? 0) || zlist_eqb t [46] then Some missing else parser t) txts.
 
+(* >>> the model follows /repo HEAD; after notes/C02.fix-1.diff is applied, change the right-hand side to
+   @parse_with_missing_fixed A <<< *)
+Definition parse_with_missing_cur {A} := @parse_with_missing A.
+
 (* strops._decimal_str_to_float / _scientific_str_to_float, as exact rationals *)
 Definition dec_to_rat (txt : list Z) : option (Z * Z) :=
   match txt with
@@ -431,6 +453,9 @@ Definition parse_split {A} (parser : list Z -> option A) (rows_sep : list (list 
 Definition parse_split_fixed {A} (parser : list Z -> option A) (rows_sep : list (list Z)) : option (list (list A)) :=
   mapM (fun r => mapM parser (filter (fun s => negb (len s =? 0)) (split_on 44 (removelast r)))) rows_sep.
 
+(* >>> after notes/C02.fix-2.diff is applied, change the right-hand side to @parse_split_fixed A <<< *)
+Definition parse_split_cur {A} := @parse_split A.
+
 (* a SequenceID column is moved into a fixed-width matrix; width 0 (every text empty) cannot be reshaped *)
 Definition sid_col (txts : list (list Z)) : colres :=
   if forallb (fun t => len t =? 0) txts then ColErr else Col (map CBytes txts).
@@ -444,11 +469,11 @@ Definition typed_col (t : table) (j : Z) (ty : ctype) : colres :=
   | TSid => sid_col (texts t j)
   | TInt => opt_col CInt (parse_int_col data (bounds t j))
   | TIntM1 => opt_col (fun v => CInt (v - 1)) (parse_int_col data (bounds t j))
-  | TOptInt => opt_col CInt (parse_with_missing 0 str_to_int_auto (texts t j))
+  | TOptInt => opt_col CInt (parse_with_missing_cur 0 str_to_int_auto (texts t j))
   | TFloat => opt_col rat_cell (mapM str_to_float1 (texts t j))
   | TStrand => opt_col CBytes (mapM (mapM strand_sym) (texts t j))
   | TQual => Col (map (fun x => CInts (map (fun c => c - 33) x)) (texts t j))
-  | TIntList => opt_col CInts (parse_split str_to_int_auto (texts_sep t j))
+  | TIntList => opt_col CInts (parse_split_cur str_to_int_auto (texts_sep t j))
   | TRest =>   (* SAMBufferExctractor._get_extra_field *)
       Col (map (fun '(se, ee) => let st := snd se + 1 in CBytes (slice st (st + Z.max (ee - st - 1) 0) data))
                (combine (bounds t 10) (t_eends t)))
@@ -470,8 +495,10 @@ Definition key_mask (flat : list Z) (key : list Z) (it : Z * Z) : bool :=
 (* has_field_mask walks back from the last item while start+L >= size; when it runs out of items it raises *)
 Definition all_ignored (flat : list Z) (key : list Z) (tab : list (list (Z * Z))) : bool :=
   forallb (fun it => len flat <=? fst it + len key + 1) (concat tab).
+(* >>> after notes/C02.fix-3.diff is applied, change to false <<< *)
+Definition short_buffer_raises : bool := true.
 Definition info_texts (keep_sep : bool) (flat key : list Z) (tab : list (list (Z * Z))) : option (list (list Z)) :=
-  if all_ignored flat key tab then None
+  if short_buffer_raises && all_ignored flat key tab then None
   else if existsb (fun row => 1 <? len (filter (key_mask flat key) row)) tab then None   (* key twice in a row *)
   else Some (map (fun row =>
          match filter (key_mask flat key) row with
@@ -488,11 +515,11 @@ Definition info_col (flat : list Z) (tab : list (list (Z * Z))) (d : list Z * it
   | IFlag => Col (map CBool (has_flag flat key tab))
   | IString => opt_col CBytes (info_texts false flat key tab)
   | IInteger =>
-      if lst then opt_col CInts (opt_bind (info_texts true flat key tab) (parse_split str_to_int_auto))
-      else opt_col CInt (opt_bind (info_texts false flat key tab) (parse_with_missing 0 str_to_int_auto))
+      if lst then opt_col CInts (opt_bind (info_texts true flat key tab) (parse_split_cur str_to_int_auto))
+      else opt_col CInt (opt_bind (info_texts false flat key tab) (parse_with_missing_cur 0 str_to_int_auto))
   | IFloat =>
-      if lst then opt_col CRats (opt_bind (info_texts true flat key tab) (parse_split str_to_float1))
-      else match opt_bind (info_texts false flat key tab) (parse_with_missing None (fun t => option_map Some (str_to_float1 t))) with
+      if lst then opt_col CRats (opt_bind (info_texts true flat key tab) (parse_split_cur str_to_float1))
+      else match opt_bind (info_texts false flat key tab) (parse_with_missing_cur None (fun t => option_map Some (str_to_float1 t))) with
            | Some l => Col (map (fun o => match o with Some p => rat_cell p | None => CNan end) l)
            | None => ColErr
            end
